@@ -368,6 +368,7 @@ def finish(res, level="proof"):
         json.dump({"property": res.prop, "kind": v.get("kind", "input"), "seed": res.seed, "tier": res.tier,
                    "what": v.get("what"), "case": v.get("case"), "family": v.get("family"),
                    "failed_obligations": [n for n, _ in res.failed_obligations],
+                   "failed_obligation_details": [{"name": n, "log": clip(l)} for n, l in res.failed_obligations[:4]],
                    "mismatches": res.mismatches[:5],
                    "how_to_run": "bin/check %s --replay %s" % (res.prop, replay_path),
                    "all_violations": [{"what": x.get("what"), "signature": x.get("signature")} for x in unlisted[:20]]},
@@ -380,7 +381,7 @@ def finish(res, level="proof"):
     elif res.failed_obligations or res.mismatches:
         json.dump({"property": res.prop, "kind": "obligation" if res.failed_obligations else "correspondence",
                    "seed": res.seed, "tier": res.tier,
-                   "failed_theorems_or_obligations": [{"name": n, "log": l[-3000:]} for n, l in res.failed_obligations],
+                   "failed_theorems_or_obligations": [{"name": n, "log": clip(l)} for n, l in res.failed_obligations],
                    "failed_correspondence": res.mismatches[:20],
                    "note": "the proof obligation / correspondence named here no longer checks against /repo's current source; "
                            "the violation search (direct oracle over all observations of this run and the targeted widening) "
@@ -413,6 +414,47 @@ def finish(res, level="proof"):
     return rc
 
 
+def clip(l, head=2600, tail=1400):
+    return l if len(l) <= head + tail else l[:head] + "\n[...]\n" + l[-tail:]
+
+
+def theorem_at(relpath, line):
+    """name of the theorem / lemma whose statement or proof contains the given line of a file under coq/"""
+    try:
+        lines = open(os.path.join(COQ, relpath)).read().split("\n")
+    except OSError:
+        return None
+    for i in range(min(line, len(lines)) - 1, -1, -1):
+        m = re.match(r"\s*(?:Theorem|Lemma|Corollary|Example|Definition)\s+([A-Za-z0-9_']+)", lines[i])
+        if m:
+            return m.group(1)
+    return None
+
+
+def skeleton_diff():
+    """functions whose regenerated control / locking / shared-state skeleton (gen/Extracted.v effects_*) differs from the one
+    the models were written against (theories/Skeletons.v), as unified diffs"""
+    import difflib
+
+    def lists(path, prefix):
+        out = {}
+        try:
+            txt = open(path).read()
+        except OSError:
+            return out
+        for name, body in re.findall(r"Definition %s(\w+) : list string :=\s*(\[.*?\])\." % prefix, txt, flags=re.S):
+            out[name] = [x.replace('""', '"') for x in re.findall(r'"((?:[^"]|"")*)"', body)]
+        return out
+    gen = lists(os.path.join(COQ, "gen", "Extracted.v"), "effects_")
+    hand = lists(os.path.join(COQ, "theories", "Skeletons.v"), "")
+    parts = []
+    for f in sorted(hand):
+        if f in gen and gen[f] != hand[f]:
+            d = list(difflib.unified_diff(hand[f], gen[f], "model was written against (%s)" % f, "/repo now (%s)" % f, lineterm="", n=2))
+            parts.append("\n".join(d[:60]))
+    return ("skeletons that changed:\n" + "\n".join(parts)) if parts else "(no function skeleton changed; see the coq error for the fact that did)"
+
+
 def proof_step(res, props_module, extra_targets=()):
     """steps 1-2: regenerate tables, build Props_<id>.vo, count obligations, Print Assumptions."""
     with Lock():
@@ -434,7 +476,11 @@ def proof_step(res, props_module, extra_targets=()):
         # which theorem? take the first error location
         m = re.search(r'File "\./([^"]+)", line (\d+)', log)
         where = "%s:%s" % (m.group(1), m.group(2)) if m else props_module
-        res.failed_obligations.append(("coq build of %s failed at %s" % (props_module, where), log))
+        thm = theorem_at(m.group(1), int(m.group(2))) if m else None
+        detail = log
+        if thm and ("code_skeletons" in thm or "source" in thm):
+            detail = "theorem %s no longer holds of the regenerated facts.\n%s\n%s" % (thm, skeleton_diff(), log)
+        res.failed_obligations.append(("coq build of %s failed at %s%s" % (props_module, where, " (theorem %s)" % thm if thm else ""), detail))
         return False
     ok, pa, palog = print_assumptions(props_module, names)
     if not ok:
